@@ -1,12 +1,21 @@
 // C17 harness: Port::meta() iteration / find / operator[] / length on a
 // run-time supplied metadata block.
-//   case:   meta <hexblock> <hexkey>,<hexkey>,...
-//   output: it=<t>:<v>;... len=<n> q=<t>:<v>,...
+//   case:   meta <hexblock> <hexkey>,<hexkey>,... <spec> [macro=<n>]
+//   output: it=<t>:<v>;... len=<n> q=<t>:<v>,... ent=<hex title>[=<hex value>];... qv=<hex value | ~>,...
+//           (offsets from the block start; ent / qv: the strings the pointers lead to, - = empty, ~ = NULL)
+//   macro=<n>: the block read is NOT the one in the case line but the one the
+//   library's own macros wrote at compile time for the port
+//       rOption(o<n>, rOptions(<n symbols>), "d")        (harness/h_C14_options.h,
+//   one port per argument count n = 1..24 of the rOptions(...) family); the
+//   case line carries what that invocation says it writes.
 // Every block is read twice: from an exact-size heap copy (ASan sees reads past
 // it) and from one arena that all cases share, so that the same address holds
 // a different block in every case (a result may depend on the bytes only).
 #include "hcommon.h"
 #include <rtosc/ports.h>
+#include <rtosc/port-sugar.h>
+using namespace rtosc;
+#include "h_C14_options.h"
 
 static std::string read_block(const char *base, const std::vector<std::string> &keys)
 {
@@ -21,8 +30,18 @@ static std::string read_block(const char *base, const std::vector<std::string> &
         o << (x.title - base) << ":" << (x.value ? x.value - base : -1);
     }
     o << " len=" << m.length() << " q=";
+    std::ostringstream ent, qv;
+    first = true;
+    for(const auto x : m) {
+        if(!first) ent << ";";
+        first = false;
+        ent << hex(x.title, strlen(x.title));
+        if(x.value) ent << "=" << hex(x.value, strlen(x.value));
+    }
     first = true;
     for(auto &key : keys) {
+        const char *val = m[key.c_str()];
+        qv << (first ? "" : ",") << (val ? hex(val, strlen(val)) : std::string("~"));
         auto it = m.find(key.c_str());
         const char *v = m[key.c_str()];
         if(!first) o << ",";
@@ -33,6 +52,7 @@ static std::string read_block(const char *base, const std::vector<std::string> &
         if(it.title && it.value != v) o << "MISMATCH";
         o << to << ":" << vo;
     }
+    o << " ent=" << ent.str() << " qv=" << qv.str();
     return o.str();
 }
 
@@ -44,6 +64,14 @@ int main()
         auto f = split(line, ' ');
         if(f.size() < 3 || f[0] != "meta") { puts("BADCASE"); continue; }
         auto bytes = unhex(f[1]);
+        if(f.size() >= 5 && f[4].compare(0, 6, "macro=") == 0) {
+            // the block a macro invocation of the library wrote, copied up to its terminating empty string
+            int n = atoi(f[4].c_str() + 6);
+            if(n < 1 || n > OPT_COUNTS) { puts("BADCASE"); continue; }
+            const char *base = Opt::ports.ports[n - 1].metadata, *p = base;
+            while(*p) p += strlen(p) + 1;
+            bytes.assign((const uint8_t*)base, (const uint8_t*)p + 1);
+        }
         std::vector<std::string> keys;
         for(auto &hk : split(f[2], ',')) {
             auto kb = unhex(hk);
